@@ -345,7 +345,7 @@ def _exec(ctx, case):
     spec = G.spec_from_recipe(case["tree"])
     # like a tree read from a file: transformed copies keep the source of the original
     src = "/data/cells/neuron.swc" if case["mseed"] % 2 else ""
-    tree = G.build(spec, with_tag=False, source=src)
+    tree = G.build(spec, with_tag=False, source=src, frozen_ok=True)
     n = len(spec["pid"])
     s = case["scale"]
     if src:
@@ -400,7 +400,7 @@ def run(ctx):
 
     rng = ctx.rng
     tap = probes.CallTap({"sholl_get": Sholl.get})
-    geoms = ["growth", "gauss", "far", "int", "pythag", "tiny", "micro", "axis", "coincident",
+    geoms = ["growth", "plane", "gauss", "far", "int", "pythag", "tiny", "micro", "axis", "coincident",
              "quarter"]
     with tap:
         for k in range(ctx.scale(640, 12800)):
